@@ -1,5 +1,5 @@
 """C14 - beats are exact fractions that snap to the 1/48 grid only from inexact input (structural clauses)."""
-from ..rules import timing, baseline
+from ..rules import timing, baseline, state
 
 EXPLANATION = (
     "Static rule checking of Beat/BeatValues/TimingData: R-OPS every arithmetic dunder of fractions.Fraction (running interpreter) "
@@ -24,6 +24,10 @@ def c5(ctx):
     timing.beatvalues_codec(ctx, judge_source=False)
 
 
+def c_state(ctx):
+    state.shared_state(ctx, ['simfile.timing:Beat.__new__', 'simfile.timing:Beat.from_str', 'simfile.timing:Beat.__str__', 'simfile.timing:Beat.round_to_tick', 'simfile.timing:BeatValues.from_str', 'simfile.timing:BeatValues.__str__'], 'a Beat depends on its constructor arguments only')
+
+
 def c_api(ctx):
     baseline.surface(ctx, "C14: documented surface", modules=['simfile.timing'])
 
@@ -31,5 +35,6 @@ CLAUSES = [
     ("C14.1", "operator completeness and same-name delegation (R-OPS)", c1),
     ("C14.2-4", "exact vs. snapping path; grid constants; text form injective on the grid", c2),
     ("C14.5-6", "event list writer/reader delimiters; timing strings reach the engine through one parser", c5),
+    ("C14.state", "no process-wide state (memoised constructors) behind Beat / BeatValues (R-STATE)", c_state),
     ("C14.api", "public surface: signatures and defaults, constants, enumerations, blank templates, base classes as confirmed (R-API)", c_api),
 ]
